@@ -20,7 +20,11 @@ Inductive c09case :=
 | CHist (ops : list op)
 (* cadence: interval or ttl (ns), then (attempt time, Expire stamped) of successive publications *)
 | CPing (interval : Z) (pubs : list (Z * Z))
-| CInformer (ttl : Z) (pubs : list (Z * Z * bool)).   (* bool: the publication was made to fail *)
+| CInformer (ttl : Z) (pubs : list (Z * Z * bool))   (* bool: the publication was made to fail *)
+(* the same with the instant at which the observation stopped: the peer must not have lapsed by then (a loop that
+   stops publishing after an error passes every pairwise test on the attempts it did make) *)
+| CPingE (interval : Z) (pubs : list (Z * Z)) (tend : Z)
+| CInformerE (ttl : Z) (pubs : list (Z * Z * bool)) (tend : Z).
 
 Record mstate := mk_ms { ms_now : Z; ms_st : store; ms_c : counters; ms_phi : list (key * bool); ms_ps : pset }.
 Definition ms0 := mk_ms 0 empty_store [] [] PNone.
@@ -171,6 +175,10 @@ Fixpoint ping_sched_okb (I : Z) (pubs : list (Z * Z)) : bool :=
   | _ => true
   end.
 
+(* at the end of the observation the expiry stamped by the last attempt has not passed *)
+Definition alive_at_end (pubs : list (Z * Z)) (tend : Z) : bool :=
+  match List.rev pubs with (_, e) :: _ => tend <? e | [] => false end.
+
 Definition dedupN (l : list N) : list N := fold_right (fun x acc => if memN x acc then acc else x :: acc) [] l.
 
 Definition check_case (c : N * c09case) : list (N * N * N) :=
@@ -183,6 +191,12 @@ Definition check_case (c : N * c09case) : list (N * N * N) :=
       (if ping_sched_okb iv pubs then [] else [(id, 1%N, 0%N)]) ++ (if ping_okb iv pubs then [] else [(id, 12%N, 0%N)])
   | CInformer ttl pubs =>
       (if informer_sched_okb pubs then [] else [(id, 1%N, 0%N)]) ++ (if informer_okb ttl pubs then [] else [(id, 12%N, 0%N)])
+  | CPingE iv pubs tend =>
+      (if ping_sched_okb iv pubs then [] else [(id, 1%N, 0%N)]) ++
+      (if ping_okb iv pubs && alive_at_end pubs tend then [] else [(id, 12%N, 0%N)])
+  | CInformerE ttl pubs tend =>
+      (if informer_sched_okb pubs then [] else [(id, 1%N, 0%N)]) ++
+      (if informer_okb ttl pubs && alive_at_end (map fst pubs) tend then [] else [(id, 12%N, 0%N)])
   end.
 
 Definition failing (cs : list (N * c09case)) : list (N * N * N) := flat_map check_case cs.
